@@ -326,6 +326,29 @@ Definition c15_connect (toks : list (list N)) : list (list N) :=
 (* spec oracle on the bytes the implementation wrote: can they be split into well-formed
    messages (selection, then optionally authentication, then optionally request)?
    in: [ak] client-bytes.  out: [1|0] *)
+(* C15 end to end: the endpoint with a SOCKS5 upstream. in: [ext; with_creds; method; auth status; reply code; atyp; tail length; _]
+   out: [status; X-Warning; tunnel intact] bytes-the-server-received *)
+Definition c15_front (toks : list (list N)) : list (list N) :=
+  match toks with
+  | [ext; creds; method; st; code; atyp; tail_n; _] :: _ =>
+    let name := [101; 120; 97; 109; 112; 108; 101; 46; 111; 114; 103] in          (* example.org *)
+    let tok64 := [100; 84; 69; 54; 99; 68; 69; 61] in                              (* dTE6cDE= *)
+    let a := if creds =? 0 then ANone
+             else if ext =? 1 then AExt [(1, [108; 111; 99; 97; 108; 104; 111; 115; 116]); (2, [127; 0; 0; 1]);
+                                         (3, [118; 101; 114; 105; 102; 45; 97; 103; 101; 110; 116]); (4, tok64)]
+             else AUserPass [117; 49] [112; 49] in
+    let tail := map (fun i => 160 + N.of_nat i) (seq 0 (N.to_nat tail_n)) in
+    let bound := if atyp =? 1 then [127; 0; 0; 1] else if atyp =? 4 then repeat 0 16
+                 else 9 :: [98; 111; 117; 110; 100; 46; 116; 115; 116] in
+    let server := [5; method] ++ (if (method =? 2) || (method =? 128) then [1; st] else [])
+                  ++ [5; code; 0; atyp] ++ bound ++ [31; 144] ++ tail in
+    let '(em, o) := connect a (DDomain name) 443 server in
+    let '(status, warn) := socks_result o in
+    let intact := match o with OTcp => if list_eqb N.eqb (connect_rest a (DDomain name) 443 server) tail then 1 else 0 | _ => 0 end in
+    [[status; warn; intact]; concat (map em_bytes em)]
+  | _ => REJECT_TOK
+  end.
+
 Definition c15_wellformed (toks : list (list N)) : list (list N) :=
   match toks with
   | [ak] :: bytes_ :: _ =>
@@ -1023,7 +1046,9 @@ Definition c19_front (toks : list (list N)) : list (list N) :=
     let s2 := fold_left sstep (map Finish idx ++ [Complete]) s1 in
     [[mask; if all_observed then 1 else 0;
       fold_left N.add (filter wound bits) 0;
-      if completion_done s2 then 1 else 0; 0; 0]]
+      if completion_done s2 then 1 else 0; 0; 0;
+      (* waiting for completion while the listener (participant 0) runs and nothing was submitted *)
+      if completion_done (sstep (srun (repeat Register k)) Complete) then 1 else 0]]
   | _ => REJECT_TOK
   end.
 
